@@ -598,7 +598,7 @@ fn exec_graph_step(w: &World, st: &[String]) -> Option<String> {
             let gs = w.graphs.borrow();
             let g = &gs[gi(&st[1])];
             match ser_value(g, &st[2]) {
-                Ok(v) => format!("{} {}", order_str(g), doc_str(&v)),
+                Ok(v) => format!("{} {} dm {}", order_str(g), doc_str(&v), crate::shape::shape_of(g)),
                 Err(e) => format!("ser-error {}", e),
             }
         }),
